@@ -121,7 +121,13 @@ class Gen:
     def ref_line(self, op, name, shape, toff=None):
         fmt, size, foff, roff, templ, mask = shape
         if toff is None:
-            toff = self.r.choice([0, 0, 0, self.unit, -self.unit, 4 * self.unit, -8 * self.unit]) if not fmt.startswith("x") else self.r.choice([0, 0, 1, -1, 5, -7])
+            if fmt.startswith("x"):
+                toff = self.r.choice([0, 0, 1, -1, 5, -7])
+            elif fmt in ("a64.ADR", "rv.HI20", "rv.LO12", "rv.LO12S", "rv.SPLIT32", "rv.SPLIT32S") or fmt.startswith(("a64.P", "rv.P", "p.")):
+                # byte-granular references (adr, the auipc pairs, data words): the user-supplied offset need not be a multiple of the instruction size
+                toff = self.r.choice([0, 0, self.unit, -self.unit, 1, -1, 3, -3, 5, -7, 4 * self.unit + 1, -8 * self.unit - 1])
+            else:
+                toff = self.r.choice([0, 0, 0, self.unit, -self.unit, 4 * self.unit, -8 * self.unit])
         self.emit(self.placeholder(shape))
         self.lines.append(f"{op} {name} {toff} {foff} {roff} {fmt}")
 
